@@ -1,5 +1,6 @@
 import TypVerif.Drv.Proto
 import TypVerif.Drv.C13
+import TypVerif.Drv.C10
 import TypVerif.Drv.ObjLin
 import TypVerif.Drv.C09
 import TypVerif.Drv.C17
@@ -28,6 +29,7 @@ open TypVerif.Proto
 
 def judges : List (String × Judge) := [
   ("C13", TypVerif.Drv.C13.judge),
+  ("C10", TypVerif.Drv.C10.judge),
   ("ObjLin", TypVerif.Drv.ObjLin.judge),
   ("C09", TypVerif.Drv.C09.judge),
   ("C17", TypVerif.Drv.C17.judge),
